@@ -997,7 +997,12 @@ func fontFamilies(comps [][]cTok) string {
 		for _, t := range cp {
 			switch t.K {
 			case 's':
-				cur = append(cur, strings.ToLower(t.S))
+				if len(cp) == 1 && cssWideKW[strings.ToLower(t.S)] {
+					// a family whose quoted name spells a CSS-wide keyword: without the quotes it would be the keyword
+					cur = append(cur, "\""+strings.ToLower(t.S)+"\"")
+				} else {
+					cur = append(cur, strings.ToLower(t.S))
+				}
 			case 'i':
 				cur = append(cur, strings.ToLower(t.S))
 			default:
@@ -1009,6 +1014,7 @@ func fontFamilies(comps [][]cTok) string {
 	return strings.Join(fams, ",")
 }
 
+var cssWideKW = setOf("initial", "inherit", "unset", "revert", "revert-layer", "default")
 var fontSizeKW = setOf("xx-small", "x-small", "small", "medium", "large", "x-large", "xx-large", "xxx-large", "smaller", "larger")
 var fontStyleKW = setOf("italic", "oblique")
 var fontStretchKW = setOf("ultra-condensed", "extra-condensed", "condensed", "semi-condensed", "semi-expanded", "expanded", "extra-expanded", "ultra-expanded")
